@@ -1,8 +1,12 @@
 #!/bin/sh
-# re-runs every stored seeded change against the current checks and rewrites meta.json
+# re-runs every stored seeded change against the current checks (8 at a time) and rewrites meta.json; prints one line per seed and a summary
 cd /verif
-for d in seeded/*/; do
-  n=$(basename $d); id=${n%-*}; k=${n#*-}
-  echo "== $n"
-  python3 tools/seeded_check.py $id $k 2>&1 | grep -E "CONFIRMED|check C" | cut -c1-160
+tmp=$(mktemp -d /tmp/seeds-all.XXXXXX)
+ls -d seeded/*/ | xargs -P 8 -I{} sh -c 'n=$(basename {}); id=${n%-*}; k=${n#*-}; python3 tools/seeded_check.py $id $k > '"$tmp"'/$n.txt 2>&1'
+tot=0; det=0
+for f in "$tmp"/*.txt; do
+  n=$(basename $f .txt); tot=$((tot+1))
+  if grep -q "on changed tree: exit 1" $f && grep -q CONFIRMED $f; then det=$((det+1)); echo "$n detected"; else echo "$n NOT DETECTED: $(grep -E 'CONFIRMED|check C|FAIL' $f | tr '\n' ' ' | cut -c1-200)"; fi
 done
+echo "seeds: $det of $tot detected"
+rm -rf "$tmp"
